@@ -123,7 +123,10 @@ func c02SetPayload(b [188]byte, m *ref.Packet, data []byte) *hx.Failure {
 // c02SetPayloadFrom is the SetPayload oracle. When window is not nil the argument handed to SetPayload is
 // that window of the packet's OWN payload as the function-style accessor returns it (a sub-slice of the
 // packet): the bytes to store are the ones the window held when the call was made.
-func c02SetPayloadFrom(b [188]byte, m *ref.Packet, data []byte, window *[2]int) *hx.Failure {
+// window[2] selects where the window comes from and how it is sliced: 0 the packet's payload as packet.Payload
+// returns it, 1 the same with the capacity clipped to the window (own[lo:hi:hi]), 2 the packet array itself
+// (header and adaptation field included, e.g. p[:] or packet.Header(p)), 3 that with clipped capacity.
+func c02SetPayloadFrom(b [188]byte, m *ref.Packet, data []byte, window *[3]int) *hx.Failure {
 	if len(data) == 0 && data != nil && window == nil {
 		// zero bytes can be handed over as an empty slice or as nil: the same request
 		if f := c02SetPayload(b, m, nil); f != nil {
@@ -135,10 +138,16 @@ func c02SetPayloadFrom(b [188]byte, m *ref.Packet, data []byte, window *[2]int) 
 	arg := data
 	if window != nil {
 		own, err := packet.Payload(&p)
+		if window[2] >= 2 {
+			own, err = p[:], nil
+		}
 		if err != nil || window[1] > len(own) {
-			return hx.Failf("bad-case", "window outside the payload")
+			return hx.Failf("bad-case", "window outside its source")
 		}
 		arg = own[window[0]:window[1]]
+		if window[2]%2 == 1 {
+			arg = own[window[0]:window[1]:window[1]]
+		}
 		data = clone(arg)
 	}
 	keep := clone(data)
@@ -165,7 +174,7 @@ func c02SetPayloadFrom(b [188]byte, m *ref.Packet, data []byte, window *[2]int) 
 	}
 	ctx := fmt.Sprintf("afc=%d af_len=%v content=%d capacity=%d n=%d", m.AFC, afLen(m), contentOf(m), capacity, len(data))
 	if window != nil {
-		ctx += fmt.Sprintf(", data = bytes [%d,%d) of the packet's own payload as returned by packet.Payload", window[0], window[1])
+		ctx += fmt.Sprintf(", data = bytes [%d,%d) of %s", window[0], window[1], []string{"the packet's own payload as returned by packet.Payload", "the packet's own payload, capacity clipped to the window", "the packet's own 188 bytes", "the packet's own 188 bytes, capacity clipped to the window"}[window[2]])
 	}
 	if err != nil {
 		return hx.Failf("setpayload-error", "SetPayload failed on a packet that carries payload: %v (%s)", err, ctx)
@@ -408,7 +417,22 @@ func checkC02(c CaseC02, x *hx.Ctx) *hx.Failure {
 			off = (c.CC*7 + c.PID) % (len(m.Payload) - k + 1)
 		}
 		x.Label("own-payload-handed-back")
-		if f := c02SetPayloadFrom(b, m, nil, &[2]int{off, off + k}); f != nil {
+		if f := c02SetPayloadFrom(b, m, nil, &[3]int{off, off + k, c.CC % 2}); f != nil {
+			f.Key += "-own-window"
+			return f
+		}
+	}
+	// a window of the packet's own bytes, header included
+	if m.AFC&1 != 0 {
+		k := len(c.Data)
+		if k > 188 {
+			k = 188
+		}
+		off := (c.CC*11 + c.PID) % (188 - k + 1)
+		if c.PID%3 == 0 {
+			off = 0 // windows that start with the header (p[:n], packet.Header(p))
+		}
+		if f := c02SetPayloadFrom(b, m, nil, &[3]int{off, off + k, 2 + c.PID%2}); f != nil {
 			f.Key += "-own-window"
 			return f
 		}
